@@ -507,8 +507,9 @@ func (c *Ctx) symxRun() *simpleVerdict {
 	// (U+0001, the ends of ASCII and Latin-1, the first character above U+00FF, the last configurable character) as
 	// the only, the first, an inner and the last character of registered symbols; the one-character symbol registered
 	// or not, before or after the longer ones, and longer symbols registered after the table was used. (U+0000 is
-	// left out: a registered symbol that contains it is returned without it - reported, not part of the family.)
-	for k, b := range []string{"\x01", "\x7f", "\u0080", "\u00fe", "\u00ff", "\u0100", "\u0101", "\ufffe"} {
+	// in the family too: the pinned tree used the character 0 for "the root" when it spelled a symbol, so a registered
+	// symbol containing U+0000 came back without it - found here, repaired in /repo, known_findings.json)
+	for k, b := range []string{"\x00", "\x01", "\x7f", "\u0080", "\u00fe", "\u00ff", "\u0100", "\u0101", "\ufffe"} {
 		t := int64(160 + 4*k)
 		one := []symReg{{b, t}}
 		first := []symReg{{b + ">", t + 1}, {b + ">=", t + 2}}
